@@ -359,14 +359,40 @@ func ZZ_C04_Runs(sv *zzsv.T) {
 	}
 	sv.Note("script", e.Script)
 	sv.Assume(e.Prepare() == nil)
-	out1, err1 := e.Execute(o1)
+	var first interface{} = o1
 	var second interface{} = o2
-	switch sv.Choice("second", 3) {
+	switch sv.Choice("second", 6) {
 	case 1:
 		second = &o2
 	case 2:
 		second = map[string]interface{}{"A": o2.A, "B": o2.B}
+	case 3: // two different unnamed struct types: the same fields in another order
+		first = struct {
+			A int64
+			B string
+		}{o1.A, o1.B}
+		second = struct {
+			B string
+			A int64
+		}{o2.B, o2.A}
+	case 4: // the second type has one more field, in front
+		first = struct {
+			A int64
+			B string
+		}{o1.A, o1.B}
+		second = &struct {
+			X bool
+			A int64
+			B string
+		}{true, o2.A, o2.B}
+	case 5: // a named type after an unnamed one with other fields
+		first = struct {
+			B string
+			Q int
+			A int64
+		}{o1.B, 3, o1.A}
 	}
+	out1, err1 := e.Execute(first)
 	out2, err2 := e.Execute(second)
 	zzDescribe(sv, "first", out1, err1)
 	zzDescribe(sv, "second", out2, err2)
